@@ -124,8 +124,12 @@ def alphabet(N, reduced=False):
             ops.append(("movelive", who, st))
         ops.append(("poslive", who))
         ops.append(("movelivelist", who, 0))     # the live view wrapped in a list
+        ops.append(("rotliveori", who, 0))       # the orientation OBJECT of a member as rotation input
+        ops.append(("rotliveori", who, "auto"))
     # in-place arithmetic through the getter: o.position += d must act like o.position = o.position + d
     ops += [("posiadd", "s"), ("orilast",), ("oriself",)]
+    # a fine angular sweep (micro-radian steps): still a rotating path
+    ops += [("rotmicro", "auto"), ("rotmicro", 0)]
     return ops
 
 
@@ -140,10 +144,13 @@ def live_member(tree, target, who):
 
 
 ANGAX = {"s": 40.0, "v2": [15.0, 35.0]}
+MICRO = [2e-6, 5e-6, 9e-6]   # rad
 
 
 def apply_impl(o, op, live=None):
-    if op[0] == "posiadd":
+    if op[0] == "rotmicro":
+        o.rotate_from_angax(MICRO, (0.3, 1.0, -0.2), anchor=(0.4, 0.1, -0.3), start=op[1], degrees=False)
+    elif op[0] == "posiadd":
         o.position += np.array(D[op[1]])
     elif op[0] == "orilast":
         o.orientation = o.orientation[-1] if len(o._position) > 1 else o.orientation
@@ -151,6 +158,8 @@ def apply_impl(o, op, live=None):
         o.orientation = o.orientation
     elif op[0] == "movelivelist":
         o.move([live.position] if live.position.ndim == 1 else list(live.position), start=op[2])
+    elif op[0] == "rotliveori":
+        o.rotate(live.orientation, anchor=(0.5, -0.2, 0.3), start=op[2])
     elif op[0] == "rotlive":
         o.rotate(Rot(ROT[op[1]]), anchor=live.position, start=op[3])
     elif op[0] == "movelive":
@@ -171,10 +180,13 @@ def apply_impl(o, op, live=None):
         o.reset_path()
 
 
-def apply_model(m, op, live_value=None):
+def apply_model(m, op, live_value=None, live_ori=None):
     from scipy.spatial.transform import Rotation as R
 
-    if op[0] == "posiadd":
+    if op[0] == "rotmicro":
+        ax = np.array((0.3, 1.0, -0.2)) / np.linalg.norm((0.3, 1.0, -0.2))
+        m.rotate(R.from_rotvec(np.array(MICRO)[:, None] * ax).as_matrix(), (0.4, 0.1, -0.3), op[1])
+    elif op[0] == "posiadd":
         m.set_position(np.array(m.arrays()[0], float) + np.array(D[op[1]]))
     elif op[0] == "orilast":
         m.set_orientation(np.array(m.arrays()[1], float)[-1:])
@@ -182,6 +194,8 @@ def apply_model(m, op, live_value=None):
         m.set_orientation(np.array(m.arrays()[1], float))
     elif op[0] == "movelivelist":
         m.move(np.atleast_2d(live_value), op[2])
+    elif op[0] == "rotliveori":
+        m.rotate(live_ori, (0.5, -0.2, 0.3), op[2])
     elif op[0] == "rotlive":
         m.rotate(Rot(ROT[op[1]]).as_matrix(), live_value, op[3])
     elif op[0] == "movelive":
@@ -212,7 +226,7 @@ def rel(Pc, Mc, Pd, Md):
 
 
 def opkey(op):
-    st = op[-1] if op[0] in ("move", "rot", "angax", "rotlive", "movelive", "movelivelist") else ""
+    st = op[-1] if op[0] in ("move", "rot", "angax", "rotlive", "movelive", "movelivelist", "rotliveori", "rotmicro") else ""
     sc = "" if st == "" else ("auto" if st == "auto" else "neg" if st < 0 else "zero" if st == 0 else "pos")
     if op[0] == "rot":
         return f"rotate|rot={'scalar' if op[1]=='s' else 'vector'}|anchor={op[2]}|start={sc}"
@@ -220,7 +234,7 @@ def opkey(op):
         return f"angax|ang={'scalar' if op[1]=='s' else 'vector'}|anchor={op[2]}|start={sc}"
     if op[0] == "move":
         return f"move|{'scalar' if op[1]=='s' else 'vector'}|start={sc}"
-    if op[0] in ("rotlive", "movelive", "poslive", "movelivelist"):
+    if op[0] in ("rotlive", "movelive", "poslive", "movelivelist", "rotliveori"):
         return f"{op[0]}|live={op[2] if op[0] == 'rotlive' else op[1]}|start={sc}"
     return op[0]
 
@@ -241,15 +255,18 @@ def check_transition(tree, st, target, op, want_state=True):
         Bbefore = objs[target].getB(squeeze=False)
     m = PathModel(*st[target])
     live = live_value = None
-    if op[0] in ("rotlive", "movelive", "poslive", "movelivelist"):
+    live_ori = None
+    if op[0] in ("rotlive", "movelive", "poslive", "movelivelist", "rotliveori"):
         who = live_member(tree, target, op[2] if op[0] == "rotlive" else op[1])
         live = objs[who]
         live_value = np.array(np.squeeze(before[who][0]), float).copy()
+        live_ori = np.array(before[who][1], float).copy()
+        live_ori = live_ori[0] if len(live_ori) == 1 else live_ori
     try:
         apply_impl(objs[target], op, live)
     except Exception as e:
         return [f"valid call raised {type(e).__name__}: {e}"[:160]], None, True
-    apply_model(m, op, live_value)
+    apply_model(m, op, live_value, live_ori)
     problems = []
     after = {n: read(objs[n]) for n in names}
     # own path follows the path model
